@@ -69,12 +69,13 @@ def commands(rng, pdet, pprob, n):
     return out
 
 
-def run(ctx, seed, n):
-    """Execute n ambient commands; returns counts of outcomes. Crashes are not judged here (C19 does that)."""
+def run(ctx, seed, n, extra=None):
+    """Execute n ambient commands (plus extra(pdet, pprob) -> [argv], a fixed list a check wants to be sure about);
+    returns counts of outcomes. Crashes are not judged here (C19 does that)."""
     rng = random.Random("ambient-run-%s" % seed)
     pdet, pprob = make_files(ctx.workdir, seed)
     res = {"ok": 0, "exit": 0, "crash": 0}
-    for argv in commands(rng, pdet, pprob, n):
+    for argv in (extra(pdet, pprob) if extra else []) + commands(rng, pdet, pprob, n):
         o = runner.run_cli(argv)
         res[o.status] += 1
         ctx.count("ambient:" + o.status)
